@@ -554,6 +554,64 @@ func checkC11(e *Engine, r *Report) {
 		okE := len(ec) == 1 && len(hs) == 1 && sliceFrom(ec[0].Common().Args[0]).HasValue(hs[0].(ssa.Value))
 		r.Check(okV && okH && okE, "VerifySignature › match = (recover(hash(tm, chainId), sig) == expected)", e.Pos(vs.Pos()), "Ecrecover over EIP712HashingTypedMessage(tm, chainId); match = recovered == expectedAddress", "the signature check does not compare the address recovered over the typed-data hash for this chain id with the expected address")
 	})
+
+	r.Rule("R6", "ROUND-ONCE", "view methods report the native numbers: a view (read-only staking executor or its helper) never accumulates values that were each rounded (TruncateInt / RoundInt / TruncateInt64 …) inside a loop — the native queries round their total once, and a sum of truncated parts falls short of the truncated sum by up to n−1 units", 1, func() {
+		isRounding := func(v ssa.Value) bool {
+			c, ok := v.(*ssa.Call)
+			if !ok {
+				return false
+			}
+			fo := calleeObj(c)
+			if fo == nil || fo.Pkg() == nil || fo.Pkg().Path() != pkgSdkMath {
+				return false
+			}
+			switch fo.Name() {
+			case "TruncateInt", "RoundInt", "TruncateInt64", "RoundInt64", "Ceil", "TruncateDec", "QuoTruncate", "QuoInt", "QuoRaw", "Quo":
+				return true
+			}
+			return false
+		}
+		nViews, nBad := 0, 0
+		for _, f := range e.SrcFuncs(func(p string) bool { return p == pkgCpcKeeper }) {
+			top := topFn(f)
+			rn := ""
+			if top.Signature.Recv() != nil {
+				rn = namedTypeName(top.Signature.Recv().Type())
+			}
+			if !strings.HasPrefix(rn, "stakingCustomPrecompiledContractRo") {
+				continue
+			}
+			nViews++
+			for _, l := range loopsOf(f) {
+				for b := range l.Body {
+					for _, in := range b.Instrs {
+						c, ok := in.(*ssa.Call)
+						if !ok {
+							continue
+						}
+						fo := calleeObj(c)
+						if fo == nil || fo.Pkg() == nil || fo.Pkg().Path() != pkgSdkMath || !(fo.Name() == "Add" || fo.Name() == "AddRaw" || fo.Name() == "Sub") {
+							continue
+						}
+						for _, a := range c.Call.Args {
+							sl := backSlice(a, SliceOpts{ThroughCallArgs: alwaysThrough, NoMemory: true})
+							if sl.Has(func(v ssa.Value) bool {
+								ins, isI := v.(ssa.Instruction)
+								return isRounding(v) && isI && l.Body[ins.Block()]
+							}) {
+								nBad++
+								r.Bad("view rounds once › "+fnKey(f), e.Pos(c.Pos()), "the view accumulates values that are rounded one by one inside the loop (sum of truncations): the reported number differs from the native query's total, which is rounded once")
+							}
+						}
+					}
+				}
+			}
+		}
+		if nBad == 0 {
+			r.OK("view rounds once › staking views", "", itoa(nViews)+" view functions, no accumulation of individually rounded values")
+		}
+		r.Count("view_functions", nViews)
+	})
 }
 
 // samePathCalls: both values are the same nullary-getter chain on the same base, e.g. ctx.EventManager() twice.
